@@ -1,9 +1,14 @@
 import Kopf.Drv.Json
-import Kopf.Drv.C05
 import Kopf.Model.C15_Match
 open Lean
 namespace Kopf.Drv.C15
 open Kopf.C15
+
+/-- cause reasons by name (own copy: this driver depends on no other property's driver file) -/
+def reasonOf? : String → Option Kopf.C05.Reason
+  | "create" => some .create | "update" => some .update | "delete" => some .delete
+  | "resume" => some .resume | "noop" => some .noop | "free" => some .free | "gone" => some .gone
+  | _ => none
 
 abbrev H := Handler J
 abbrev C := Cause J
@@ -73,7 +78,7 @@ def handler? (j : Json) : Option H := do
   let n ← vcrit? (← jField? j "n")
   let fnc ← jBool? (← jField? j "fnc")
   let rf ← jBool? (← jField? j "rf")
-  let r ← jOpt? (fun x => jStr? x >>= C05.reasonOf?) (← jField? j "r")
+  let r ← jOpt? (fun x => jStr? x >>= reasonOf?) (← jField? j "r")
   let i ← jBool? (← jField? j "i")
   let d ← jBool? (← jField? j "d")
   some { fn := fn, id := id, changing := ch, selector := sel, subresourceOk := sub, labels := l,
@@ -94,7 +99,7 @@ def cause? (j : Json) : Option C := do
   let b ← toJ (← jField? j "b")
   let o ← toJ (← jField? j "o")
   let n ← toJ (← jField? j "n")
-  let r ← jStr? (← jField? j "r") >>= C05.reasonOf?
+  let r ← jStr? (← jField? j "r") >>= reasonOf?
   let i ← jBool? (← jField? j "i")
   let m ← jBool? (← jField? j "m")
   -- `dicts.resolve(d, path, absent)`: a missing key or a non-mapping parent gives the token
@@ -118,6 +123,7 @@ def digit (h : H) (c : C) : Char :=
 def strs (xs : List String) : Json := .arr (xs.map Json.str).toArray
 
 def effectJson : Effect → Json
+  | .carried => .arr #[.str "carried"]
   | .invokeWatching ids => .arr #[.str "watch", strs ids]
   | .spawn ids => .arr #[.str "spawn", strs ids]
   | .addFinalizer => .arr #[.str "fin+"]
@@ -126,7 +132,8 @@ def effectJson : Effect → Json
 
 def obj? (j : Json) : Option Obj := do
   some { deletedEvent := ← jBool? (← jField? j "deleted"), ongoing := ← jBool? (← jField? j "ongoing"),
-         blocked := ← jBool? (← jField? j "blocked"), noDelays := ← jBool? (← jField? j "nodelays") }
+         blocked := ← jBool? (← jField? j "blocked"), noDelays := ← jBool? (← jField? j "nodelays"),
+         carried := ← jBool? (← jField? j "carried") }
 
 def handle : DrvHandler := fun op args =>
   match op, args with
